@@ -1279,10 +1279,14 @@ def shard_worker(seed, tier, si, nshards, budget_s, net_specs, per_net):
             w = World(nl)
             hrefs = w.hrefs_instances()
             res.dist("net:%s:%s" % (ns["kind"], ns.get("policy", "EDIF")))
+            history = []      # edits applied to this netlist so far (every reported input carries them)
+            n_edits = 0
             for qi in range(per_net):
                 if time.time() - t0 > budget_s:
                     break
                 x0 = gen_query(w, rng, hrefs)
+                if history:
+                    x0["pre"] = list(history)
                 try:
                     case = Case(w, x0)
                 except Exception:
@@ -1404,15 +1408,147 @@ def shard_worker(seed, tier, si, nshards, budget_s, net_specs, per_net):
                                     report(res, runner, w, kind, sig, xi, det)
                         if not explained:
                             report(res, runner, w, "meta", ["%s.metamorphic.%s" % (case.fn, rel)], xis[0], detail)
+                # ---- edit between two runs of the same query family (state kept by the implementation
+                # between queries must follow the netlist): query (done above), rename / re-key / re-index
+                # something without adding or removing anything, query again; the second result is checked
+                # against model and Spec recomputed on the edited netlist
+                if case.fn in NOPAT_FNS or not combos or rng.random() > 0.4:
+                    continue
+                pre_pats, pre_ic, pre_ir, _fam = combos[-1]
+                preq = input_of(case, pre_pats, pre_ic, pre_ir, True, "none")
+                preq.pop("pre", None)
+                steps = [["q", preq]]
+                for _ in range(rng.choice([1, 1, 2])):
+                    n_edits += 1
+                    ed = gen_edit(w, rng, case, n_edits)
+                    if ed is not None and apply_edit(w, ed):
+                        steps.append(["edit", ed])
+                        history.append(["edit", ed])
+                        res.dist("edit:" + ed["op"])
+                if len(steps) == 1:
+                    continue
+                x1 = dict(x0)
+                x1["pre"] = list(x0.get("pre", [])) + steps
+                try:
+                    case2 = Case(w, x1)
+                except Exception:
+                    res["obligations"].append(("harness case construction after edit", False, traceback.format_exc()[-1500:]))
+                    continue
+                if not case2.ok:
+                    res.dist("after_edit:" + case2.why.split(":")[0])
+                    continue
+                combos2 = [(pre_pats, pre_ic, pre_ir, "old")] + [c for c in combos[:2]] + gen_patterns(case2, rng)[:3]
+                for pats, is_case, is_re, fam in combos2:
+                    for fast in (True, False):
+                        try:
+                            r = runner.check(case2, pats, is_case, is_re, fast, "none")
+                        except Exception:
+                            res["obligations"].append(("harness check after edit ran", False, traceback.format_exc()[-1500:]))
+                            continue
+                        xe = input_of(case2, pats, is_case, is_re, fast, "none")
+                        res.case(stable_hash([ns, xe]), len(case2.base) >= 2)
+                        res.dist("after_edit")
+                        if r is not None:
+                            kind, sig, detail = r
+                            xe["net"] = ns
+                            key = (kind.split("+")[0], tuple(sig or ()))
+                            if key in reported and kind != "corr":
+                                for sg in sig:
+                                    res.dist("repeat:" + sg)
+                            else:
+                                reported.add(key)
+                                report(res, runner, w, kind, sig, xe, detail)
     finally:
         drv.close()
     return res
+
+
+EDIT_KINDS = ("port", "cable", "instance", "definition", "library")
+
+
+def gen_edit(w, rng, case, n):
+    """An edit that changes names / key values / bundle indexing but adds and removes nothing (so every
+    id of the World stays valid): rename, set / delete EDIF.identifier, set / delete the user key,
+    lower_index, is_scalar.  Biased to elements the query just looked at."""
+    pool = []
+    if case is not None and case.ok and case.base and rng.random() < 0.7:
+        i = rng.choice(case.base)
+        if i >= 100000:
+            pool = [j for j in (w.oid(e) for e in w.hpath(w.hobjs[i - 100000])) if j >= 0 and w.kind[j] in EDIT_KINDS]
+        elif 0 <= i < len(w.kind) and w.kind[i] in EDIT_KINDS:
+            pool = [i]
+    if not pool:
+        pool = [j for j, k in enumerate(w.kind) if k in EDIT_KINDS]
+    if not pool:
+        return None
+    i = rng.choice(pool)
+    o = w.objs[i]
+    kind = w.kind[i]
+    ops = ["rename", "rename", "rename", "set_ident", "set_uk"]
+    if "EDIF.identifier" in o:
+        ops.append("del_ident")
+    if "uk" in o:
+        ops.append("del_uk")
+    if kind in ("port", "cable"):
+        ops += ["lower_index", "lower_index"]
+        if len(o.pins if kind == "port" else o.wires) == 1:
+            ops.append("is_scalar")
+    op = rng.choice(ops)
+    if op == "rename":
+        base = o.name if o.name else "un"
+        val = rng.choice([base + "_r%d" % n, "r%d_" % n + base, base.swapcase() if base.swapcase() != base else base + "_R"])
+    elif op == "set_ident":
+        val = "edit%d_Id" % n
+    elif op == "set_uk":
+        val = rng.choice(UK_POOL)
+    elif op == "lower_index":
+        val = rng.randint(0, 6)
+    elif op == "is_scalar":
+        val = not o.is_scalar
+    else:
+        val = None
+    return {"op": op, "obj": i, "value": val}
+
+
+def apply_edit(w, e):
+    """returns True if the edit was accepted"""
+    o = w.objs[e["obj"]]
+    try:
+        if e["op"] == "rename":
+            o.name = e["value"]
+        elif e["op"] == "set_ident":
+            o["EDIF.identifier"] = e["value"]
+        elif e["op"] == "del_ident":
+            del o["EDIF.identifier"]
+        elif e["op"] == "set_uk":
+            o["uk"] = e["value"]
+        elif e["op"] == "del_uk":
+            del o["uk"]
+        elif e["op"] == "lower_index":
+            o.lower_index = e["value"]
+        elif e["op"] == "is_scalar":
+            o.is_scalar = e["value"]
+        return True
+    except (ValueError, RuntimeError, KeyError, AssertionError):
+        return False
+
+
+def run_pre(w, x):
+    """replays the history of an input: queries run before (results discarded) and edits, in order"""
+    for step in x.get("pre", []):
+        if step[0] == "edit":
+            apply_edit(w, step[1])
+        else:
+            y = step[1]
+            with FastLookup(y.get("fast", True)):
+                impl(w, y)
 
 
 def replay_input(ctx, runner, res, x):
     ns = x["net"]
     nl = build_net(ns)
     w = World(nl)
+    run_pre(w, x)
     case = Case(w, x)
     if not case.ok:
         res.dist(case.why)
@@ -1454,7 +1590,10 @@ def run(ctx):
                 "inner/outer pin, wire, hierarchical reference) x selection x recursive x key (.NAME, EDIF.identifier, uk) x "
                 "1-4 patterns derived from the values present (exact, case-swapped, prefix*, infix*, single ?, escaped regex, "
                 "regex prefix .*, absent; repeated / permuted lists) x is_case x is_re x fast lookup registered/deregistered x "
-                "filter callback; a case is distinct by (netlist, query); non-trivial when the unfiltered result has >= 2 elements")
+                "filter callback; after 40 % of the queries 1-2 edits that add/remove nothing (rename, set/delete EDIF.identifier or the "
+                "user key, lower_index, is_scalar) are applied and the same query family is run again in the same process (old and new "
+                "patterns, lookup on/off) and checked against model and Spec recomputed on the edited netlist; "
+                "a case is distinct by (netlist, history, query); non-trivial when the unfiltered result has >= 2 elements")
     ctx.assumptions = [
         "candidate collection of the get_* functions is not modelled: the base set is the implementation's own result for `*` (DESIGN decision 6)",
         "only `*` and `?` are wildcards; `[` in a pattern stands for itself (model = code as repaired by docs/fixes/query_glob_bracket_literal.diff; on the pinned code this is the open finding _value_matches_pattern.glob_bracket.character_class); regex patterns are escaped literals, `.`, `.*`",
